@@ -419,3 +419,73 @@ def rel(a, b, n):
 
 def isign(i):
     return "i0" if i == 0 else ("i-" if i < 0 else "i+")
+
+
+# --------------------------------------------------------------------------- whole-machine programs
+# Platform constants as documented in internal/native/wemu (QEMU-virt style); the reference side of
+# wemu.NewWEmu(prog).Run(): DRAM of 16 MiB, power device (0x5555 exit ok / 0x3333 exit fail), UART THR.
+POWER_BASE = 0x100000
+UART_BASE = 0x10000000
+DRAM_SIZE = 16 << 20
+DRAM_BASE = {"rv32": 0x80000000, "rv64": 0x80000000, "la64": 0x120000000}
+SP_REG = {"rv32": 2, "rv64": 2, "la64": 3}
+
+
+def vm_assemble(arch, prog):
+    code = bytearray()
+    for ins in prog:
+        mn, a, b, c, imm = ins
+        w = la_encode(mn, a, b, c, imm) if arch == "la64" else rv_encode(mn, a, b, c, imm, 32 if arch == "rv32" else 64)
+        code += w.to_bytes(4, "little")
+    return bytes(code)
+
+
+def vm_line(arch, prog, text_addr, data=None, wins=()):
+    parts = ["vm", arch, "text=%x:%s" % (text_addr, vm_assemble(arch, prog).hex())]
+    if data:
+        parts.append("data=%x:%s" % (data[0], bytes(data[1]).hex()))
+    for a, n in wins:
+        parts.append("win=%x:%d" % (a, n))
+    return " ".join(parts)
+
+
+def vm_ref(arch, prog, text_addr, data=None, wins=(), maxsteps=200000):
+    """python reference of a whole run: reset state, step until the power device holds an exit
+    status; returns the harness's canonical line."""
+    n = 32 if arch == "rv32" else 64
+    X = mask(n)
+    regions = [(POWER_BASE, [0] * 4), (UART_BASE, [0]), (text_addr, vm_assemble(arch, prog))]
+    mem = Mem(regions)
+    if data:
+        for i, x in enumerate(data[1]):
+            mem.b[data[0] + i] = x
+    for a, k in wins:
+        for i in range(k):
+            mem.b.setdefault(a + i, 0)
+    regs = {SP_REG[arch]: (DRAM_BASE[arch] + DRAM_SIZE) & X}
+    pc = text_addr & X
+    uart = []
+    for _ in range(maxsteps):
+        st = mem.read(POWER_BASE, 4, 64)
+        if st in (0x5555, 0x3333):
+            xs = ["%d:%x" % (i, regs[i] & X) for i in sorted(regs) if i != 0 and regs[i] & X]
+            ms = ["%x:%s" % (a, "".join("%02x" % mem.b[a + i] for i in range(k))) for a, k in wins]
+            return "halt %s pc=%x x=%s uart=%s mem=%s" % ("ok" if st == 0x5555 else "fail", pc, ",".join(xs) or "-",
+                                                          bytes(uart).hex() or "-", ";".join(ms) or "-")
+        idx = (pc - text_addr) // 4
+        if pc < text_addr or idx >= len(prog) or (pc - text_addr) % 4:
+            return "fault"
+        mn, a, b, c, imm = prog[idx]
+        if arch == "la64":
+            out = la_ref(mn, a, b, c, imm, pc, regs, mem)
+        else:
+            out = rv_ref(n, mn, a, b, c, imm, pc, regs, mem)
+        if out[0] != "ok":
+            return out[0]
+        _, pc, r, w = out
+        regs.update(r)
+        for ad in sorted(w):
+            mem.b[ad] = w[ad]
+            if ad == UART_BASE:
+                uart.append(w[ad])
+    return "fuel"
